@@ -15,7 +15,7 @@ PINNED = "{" + ", ".join(f'"{d}"' for d in DEVS) + "}"
 
 TIERS = {
     "quick": dict(contract_len=3, contract_fu_len=6, maxlen=7, sim=600, simdepth=16),
-    "thorough": dict(contract_len=4, contract_fu_len=7, maxlen=9, sim=8000, simdepth=24),
+    "thorough": dict(contract_len=4, contract_fu_len=7, maxlen=9, sim=2000, simdepth=24),
 }
 
 
